@@ -15,7 +15,7 @@ def wide():
     return out
 
 
-CFG = apiprops.cfg("C05", ["C05_reference_offsets_valid", "C05_iter_spans_valid", "C05_split_no_panic", "C05_replace_no_panic", "C05_vm_never_panics", "C05_vm_offsets_valid", "C05_vm_never_panics_any_program", "C05_vm_offsets_valid_any_program", "C05_vm_search_ok", "C05_vm_iter_spans_valid", "C05_vm_split_never_panics", "C05_vm_replace_never_panics"],
+CFG = apiprops.cfg("C05", ["C05_reference_offsets_valid", "C05_iter_spans_valid", "C05_split_no_panic", "C05_replace_no_panic", "C05_vm_never_panics", "C05_vm_offsets_valid", "C05_vm_never_panics_any_program", "C05_vm_offsets_valid_any_program", "C05_vm_search_ok", "C05_vm_iter_spans_valid", "C05_vm_split_never_panics", "C05_vm_replace_never_panics", "C05_vm_api_never_panics_total"],
                    [apiprops.api_extra("C05", limits=("-", "1", "3"))],
                    feats=[gen.Feats(cond=True, contg=True, nullable_star=True, refs_closed=False, named=True), gen.Feats(cond=True, contg=True, refs_closed=False), gen.Feats(nullable_star=True, refs_closed=False)],
                    tiers=("t2", "run"), n_thorough=1000, k_base_thorough=20, k_extra_thorough=12,
